@@ -58,6 +58,11 @@ POOLS = {
     "any": {"valid": ["abc", 3, 1.5, True, [1, "x"], {"a": 1}, ""], "lenient": [], "invalid": [], "nonfinite": [float("inf")]},
     "ref_enum": {"valid": ["aa"], "lenient": [], "invalid": ["cc", 1, ["aa"]]},
     "allof_override": {"valid": [2, 0], "lenient": ["4"], "invalid": ["x", 1.5, True, []]},
+    "allof_untyped_first": {"valid": [2, 0, 7], "lenient": ["4"], "invalid": ["x", 1.5, True, []]},
+    "allof_untyped_last": {"valid": [2, 0], "lenient": [], "invalid": ["x", 1.5, True, []]},
+    "const_int": {"valid": [1], "lenient": [1.0], "invalid": [2, "1", True, 1.5, []]},
+    "const_bool": {"valid": [True], "lenient": [], "invalid": [False, 1, "true", 1.0]},
+    "const_zero": {"valid": [0], "lenient": [0.0], "invalid": [False, "0", 1]},
 }
 HEADER_KINDS = {"str", "int", "num", "bool", "enum_str", "enum_int"}
 COOKIE_KINDS = {"str", "enum_str", "int", "num", "bool", "date", "uuid"}
@@ -126,6 +131,12 @@ def schema_for(kind, default):
         return {"type": "integer", "enum": [1, -2, 0], "default": default}, {}
     if kind == "const":
         return {"const": "fixed", "default": default}, {}
+    if kind == "const_int":
+        return {"const": 1, "default": default}, {}
+    if kind == "const_bool":
+        return {"const": True, "default": default}, {}
+    if kind == "const_zero":
+        return {"const": 0, "default": default}, {}
     if kind == "union":
         return {"anyOf": [{"type": "integer"}, {"type": "boolean"}], "default": default}, {}
     if kind == "any":
@@ -227,7 +238,7 @@ def expected_json(kind, v):
         return ("dt", isoparse(v))
     if kind == "uuid":
         return str(uuid.UUID(v))
-    if kind in ("int", "allof_override"):
+    if kind in ("int", "allof_override", "allof_untyped_first", "allof_untyped_last", "const_int", "const_zero"):
         return int(float(v))
     if kind == "num":
         return float(v)
@@ -271,7 +282,7 @@ def type_ok(kind, got, literal) -> bool:
         return isinstance(got, uuid.UUID)
     if kind in ("enum_str", "enum_int", "ref_enum"):
         return (not isinstance(got, enum.Enum)) if literal else isinstance(got, enum.Enum)
-    if kind in ("int", "allof_override"):
+    if kind in ("int", "allof_override", "allof_untyped_first", "allof_untyped_last", "const_int", "const_zero"):
         return isinstance(got, int) and not isinstance(got, bool)
     if kind == "num":
         return isinstance(got, (int, float)) and not isinstance(got, bool)
@@ -288,10 +299,12 @@ def run(case, ctx):
     if pool == "random":
         pool = classify(kind, v)
     site = {"kind": kind, "pool": pool, "route": route}
-    if kind == "allof_override":
-        comps = {"Parent": {"type": "object", "properties": {"pp": {"type": "integer", "default": 1}}},
+    if kind in ("allof_override", "allof_untyped_first", "allof_untyped_last"):
+        first = {"type": "integer", "default": 1} if kind != "allof_untyped_first" else {"default": 1}
+        second = {"type": "integer", "default": v} if kind != "allof_untyped_last" else {"default": v}
+        comps = {"Parent": {"type": "object", "properties": {"pp": first}},
                  "Holder": {"allOf": [{"$ref": "#/components/schemas/Parent"},
-                                      {"type": "object", "properties": {"pp": {"type": "integer", "default": v}}}]}}
+                                      {"type": "object", "properties": {"pp": second}}]}}
         paths = {}
         if route != "model":
             return
